@@ -40,16 +40,19 @@ OPS = [("+", operator.add), ("-", operator.sub), ("*", operator.mul), ("/", oper
 
 
 # leaf functions (module level so that they pickle by reference / cloudpickle by value)
+AMP = [1.0]  # an amplitude set from outside (as a user's script would between two runs): what a cleared cache must forget
+
+
 def f2(x, y, a=1.5):
-    return a + 0.25 * x - 0.5 * y
+    return AMP[0] * (a + 0.25 * x - 0.5 * y)
 
 
 def f3(x, y, z, b=2.0):
-    return b + 0.1 * x * y + 0.3 * z
+    return AMP[0] * (b + 0.1 * x * y + 0.3 * z)
 
 
 def ft(x, y, z, *, t, c=0.75):
-    return c + 0.05 * x + 0.2 * t + 0 * z
+    return AMP[0] * (c + 0.05 * x + 0.2 * t + 0 * z)
 
 
 LEAVES = ["P2", "P3", "PT", "I", "F"]
@@ -227,12 +230,37 @@ def check_tree(ctx, t, dev_solve=None, with_model_lines=None):
                 fail("eq-structural", f"{show(t)} compares equal to {show(other)}")
     except Exception as e:  # noqa
         fail(f"eq:{type(e).__name__}", f"comparing {show(t)} raised {type(e).__name__}: {e}")
-    # cache clearing is total
+    # cache clearing is total ...
+    cleared = False
     try:
         p._clear_cache()
+        cleared = True
     except Exception as e:  # noqa
         which = "number-on-right" if isinstance(t, tuple) and is_number(t[2]) else "other"
         fail(f"clear-cache:{type(e).__name__}:{which}", f"{show(t)}._clear_cache() raised {type(e).__name__}: {e}")
+    # ... and effective at every depth: after the operands' functions change (an amplitude set from outside) and
+    # the cache is cleared, the composite evaluated at the SAME arguments is again the combination of the operands
+    if cleared and isinstance(t, tuple):
+        AMP[0] = 1.75
+        try:
+            for lf in leaves.values():
+                if isinstance(lf, Parameter):
+                    lf._clear_cache()
+            zz = Z if uses3(t) else None
+            tt = 0.4 if td else None
+            got = outcome(p, X, Y, zz, tt)
+            want = oracle(t, leaves, X, Y, zz, 0.4)
+            if got[0] != want[0] or (got[0] == "val" and not np.array_equal(np.asarray(got[1]), np.asarray(want[1]), equal_nan=True)) or (got[0] == "exc" and got[1] != want[1]):
+                fail("clear-cache:stale", f"after _clear_cache() {show(t)} still evaluates with operand values from before the operands changed: {str(got)[:80]} vs {str(want)[:80]}")
+        finally:
+            AMP[0] = 1.0
+            try:
+                p._clear_cache()
+            except Exception:  # noqa
+                pass
+            for lf in leaves.values():
+                if isinstance(lf, Parameter):
+                    lf._clear_cache()
     # pickling keeps flags and usability
     try:
         r = pickle.loads(pickle.dumps(p))
